@@ -286,12 +286,16 @@ struct Sut {
     std::vector<MItem> committed;  // whole logical committed sequence (archived nested + current)
     std::vector<Obj> archived;     // content of nested buffers already drained (oldest first)
     std::vector<Obj> pending;
+    unsigned drain_period = 1;  // nested buffers are taken out every n-th step only, so that chains of several nested buffers build up
+    unsigned steps = 0;
 };
 
 static Buffer::auto_grow mode_of(int m) { return m == 0 ? Buffer::auto_grow::no : m == 1 ? Buffer::auto_grow::yes : Buffer::auto_grow::internal; }
 
 static void drain_nested(Sut& t) {
+    size_t chain = 0;
     while (t.buf.has_nested_buffers()) {
+        if (++chain == 2) vp::count("chains_of_two_or_more_nested_buffers");
         std::unique_ptr<Buffer> nb = t.buf.get_last_nested();
         std::vector<model::Obj> objs;
         try {
@@ -305,8 +309,8 @@ static void drain_nested(Sut& t) {
     }
 }
 
-static void check_state(Sut& t, const std::string& after) {
-    drain_nested(t);
+static void check_state(Sut& t, const std::string& after, bool force_drain = false) {
+    if (force_drain || t.drain_period <= 1 || ++t.steps % t.drain_period == 0) drain_nested(t);
     const Buffer& b = t.buf;
     VP_CHECK(b.committed() <= b.written() && b.written() <= b.capacity(), "buffer-invariant", "committed<=written<=capacity violated after " << after);
     VP_CHECK(b.committed() % 8 == 0, "buffer-alignment", "committed not aligned after " << after);
@@ -324,16 +328,19 @@ static void check_state(Sut& t, const std::string& after) {
     } catch (const walker::Error& e) {
         vp::fail("layout-pending", "uncommitted area is not a well-formed item sequence after " + after + ": " + e.what());
     }
-    // archived + current == model committed
-    VP_CHECK(t.archived.size() + cur.size() == t.committed.size(), "content-count",
-             "after " << after << ": buffer holds " << t.archived.size() << "+" << cur.size() << " committed items, model has " << t.committed.size());
+    // archived + (nested buffers not yet taken out) + current == model committed
+    const bool nested = b.has_nested_buffers();
+    VP_CHECK(nested ? t.archived.size() + cur.size() <= t.committed.size() : t.archived.size() + cur.size() == t.committed.size(), "content-count",
+             "after " << after << ": buffer holds " << t.archived.size() << "+" << cur.size() << " committed items" << (nested ? " plus nested buffers" : "") << ", model has " << t.committed.size());
+    const size_t base = t.committed.size() - cur.size();  // index of the current buffer's first item in the model
     for (size_t i = 0; i < t.committed.size(); ++i) {
-        const model::Obj& got = i < t.archived.size() ? t.archived[i] : cur[i - t.archived.size()];
+        if (i >= t.archived.size() && i < base) continue;  // inside a nested buffer: compared when it is taken out
+        const model::Obj& got = i < t.archived.size() ? t.archived[i] : cur[i - base];
         if (got != t.committed[i].obj) {
             vp::fail("content", "after " + after + ": committed item #" + std::to_string(i) + " differs (" + model::diff(t.committed[i].obj, got) + ")\n  model: " + model::show(t.committed[i].obj) + "\n  buffer: " + model::show(got));
         }
-        if (i >= t.archived.size()) {
-            VP_CHECK(infos[i - t.archived.size()].removed == t.committed[i].removed, "removed-flag", "after " << after << ": removed flag of item #" << i << " differs");
+        if (i >= base) {
+            VP_CHECK(infos[i - base].removed == t.committed[i].removed, "removed-flag", "after " << after << ": removed flag of item #" << i << " differs");
         }
     }
     VP_CHECK(pend.size() == t.pending.size(), "pending-count", "after " << after << ": buffer holds " << pend.size() << " uncommitted items, model has " << t.pending.size());
@@ -343,9 +350,9 @@ static void check_state(Sut& t, const std::string& after) {
     // libosmium's own traversal must agree with the walker (and ASan watches it)
     size_t k = 0;
     for (const auto& e : b) {
-        VP_CHECK(t.archived.size() + k < t.committed.size(), "iteration", "library iterator yields more entities than the model after " << after);
+        VP_CHECK(base + k < t.committed.size(), "iteration", "library iterator yields more entities than the model after " << after);
         model::Obj viaapi = model::from_entity(e);
-        if (viaapi != t.committed[t.archived.size() + k].obj) vp::fail("content-api", "after " + after + ": item #" + std::to_string(k) + " read through the library API differs (" + model::diff(t.committed[t.archived.size() + k].obj, viaapi) + ")");
+        if (viaapi != t.committed[base + k].obj) vp::fail("content-api", "after " + after + ": item #" + std::to_string(k) + " read through the library API differs (" + model::diff(t.committed[base + k].obj, viaapi) + ")");
         ++k;
     }
     VP_CHECK(k == cur.size(), "iteration", "library iterator yields " << k << " of " << cur.size() << " items after " << after);
@@ -366,6 +373,10 @@ static size_t exact_size(const Obj& o, const Variant& v) {
 static void prop(vp::Src& s) {
     Sut t;
     t.mode = static_cast<int>(s.weighted({1, 2, 2}));
+    {
+        static const unsigned periods[] = {1, 3, 8, 1000};
+        t.drain_period = periods[s.weighted({3, 2, 2, 1})];
+    }
     size_t cap = 64 + 8 * s.draw(s.chance(1, 3) ? 505 : 40);
     if (t.mode == 0) cap = 256 + 8 * s.draw(1500);
     t.buf = Buffer{cap, mode_of(t.mode)};
@@ -602,6 +613,7 @@ static void prop(vp::Src& s) {
         if (vp::want_desc()) vp::describe(history);
         check_state(t, name + " (step " + std::to_string(step) + ")");
     }
+    check_state(t, "the last step, all nested buffers taken out", true);
     if (vp::want_desc()) vp::describe(history);
     if (moved_with_builder_open) {
         vp::nontrivial(vp::hash_str(history));
